@@ -117,3 +117,17 @@ Theorem experiment_filing : forall (algs probs : list nat) (seeds : nat) (resf :
   NoDup algs -> NoDup probs -> In a algs -> In p probs ->
   rlookup a p (file_all (gen_jobs algs probs seeds resf)) = map (resf a p) (seq 0 seeds).
 Proof. exact experiment_filing. Qed.
+
+(* algorithm declarations: bare type / (type,) / (type, kwargs) / (type, kwargs, name); the entries filed
+   under a declaration's name were produced by ITS type with ITS kwargs (default 0 = {} when it has none,
+   whatever precedes it in the list) *)
+Theorem c12_experiment_filing_decl : forall (decls : list adecl) (probs : list nat) (seeds : nat)
+    (resf : nat -> Z -> nat -> nat -> Z) (js : list ejob) (d : adecl) (p : nat),
+  decl_jobs decls probs seeds resf = Some js -> NoDup probs -> In d decls -> In p probs ->
+  rlookup (dname d) p (file_all js) = map (resf (dty d) (dkw d) p) (seq 0 seeds).
+Proof. exact experiment_filing_decl. Qed.
+
+Theorem c12_decl_jobs_defined : forall (decls : list adecl) (probs : list nat) (seeds : nat)
+    (resf : nat -> Z -> nat -> nat -> Z),
+  NoDup (map dname decls) -> exists js, decl_jobs decls probs seeds resf = Some js.
+Proof. exact decl_jobs_defined. Qed.
